@@ -16,7 +16,7 @@ from ..interp import Interp, MapV, Phi, Ref, Tup, vtext
 from ..nf import NF
 from ..nfdomain import NFDomain
 from ..paths import enumerate_paths, path_calls
-from ..program import AnalysisError, Program, unparse, short, walk_no_nested
+from ..program import AnalysisError, Program, unparse, short, walk_no_nested, sequential_expand
 from ..report import Report
 from .. import roms, statefx
 
@@ -234,19 +234,33 @@ def particle_variable_rules(prog: Program, rep: Report) -> None:
     src = unparse(defs[0].value) if defs else None
     ok = src in ("state.npid", "int(state.npid)")
     rep.check(rule, fi.qual, f"extent of the particle dimension: npart = {src}", ok, what_bad="the extent must be the release counter state.npid: anything derived from the instance arrays (pid.max(), len(state)) shrinks when the highest pids die and is undefined for an empty state", what_ok="state.npid", loc=fi.loc())
-    stores = [n for n in walk_no_nested(fi.node) if isinstance(n, ast.Assign) and isinstance(n.targets[0], ast.Subscript) and "self.nc.variables[var]" in unparse(n.targets[0])]
-    for s in stores:
-        t = s.targets[0]
-        rep.check(rule, fi.qual, short(s), unparse(t.slice) == ":npart" and "[:npart]" in unparse(s.value), what_bad="values must be stored at index pid for pid < npart", what_ok="[:npart] on both sides", loc=fi.loc(s))
-    if not stores:
-        raise AnalysisError("write_particle_variables: no stores found")
     loop = [n for n in walk_no_nested(fi.node) if isinstance(n, ast.For)]
     rep.check(rule, fi.qual, "loop over the configured particle variables", len(loop) == 1 and unparse(loop[0].iter) == "self.particle_variables", what_bad="not all particle variables are written", what_ok="all", loc=fi.loc())
-    # time-typed variables: offset from the reference time in the declared unit
-    tt = [s for s in stores if "np.timedelta64(1, unit)" in unparse(s.value)]
-    delta = [n for n in walk_no_nested(fi.node) if isinstance(n, ast.Assign) and unparse(n.targets[0]) == "delta"]
-    ok = bool(tt) and bool(delta) and "self.timer.reference_time" in unparse(delta[0].value) and "state[var]" in unparse(delta[0].value)
-    rep.check(rule, fi.qual, "time-typed particle variables: (value - reference_time)/unit", ok, what_bad="time-typed variables are not converted relative to the reference time", what_ok="relative to reference_time", loc=fi.loc())
+    if len(loop) != 1:
+        return
+    var = unparse(loop[0].target)
+    n_time = n_plain = 0
+    for p in enumerate_paths(loop[0].body):
+        recs, env = sequential_expand(p.stmts())
+        stores = [(st, v) for st, v in recs if isinstance(st, ast.Assign) and isinstance(st.targets[0], ast.Subscript) and "nc.variables" in unparse(st.targets[0]) or (isinstance(st, ast.Assign) and isinstance(st.targets[0], ast.Subscript) and unparse(st.targets[0]).startswith(f"ncvars[{var}]"))]
+        time_path = any(("datetime64" in unparse(t) or "M8" in unparse(t)) and taken for t, taken in p.conds())
+        desc = "time-typed variable" if time_path else "plain variable"
+        if len(stores) != 1:
+            rep.bad(rule, fi.qual, f"{desc}: store", f"{len(stores)} stores on this path", fi.loc())
+            continue
+        st, v = stores[0]
+        tgt = st.targets[0]
+        vt = unparse(v)
+        slice_ok = unparse(tgt.slice) == ":npart" and "[:npart]" in vt
+        if time_path:
+            n_time += 1
+            ok = slice_ok and "self.timer.reference_time" in vt and f"state[{var}]" in vt and "np.timedelta64(1, self.time_unit)" in vt and " - self.timer.reference_time" in vt and "/" in vt
+            rep.check(rule, fi.qual, "time-typed particle variables: (value - reference_time)/unit stored at [:npart]", ok, what_bad=f"stored value `{vt[:160]}` at [{unparse(tgt.slice)}]", what_ok="relative to reference_time, index pid < npart", loc=fi.loc(st))
+        else:
+            n_plain += 1
+            ok = slice_ok and vt == f"state[{var}][:npart]"
+            rep.check(rule, fi.qual, "particle variables stored at index pid for pid < npart", ok, what_bad=f"stored value `{vt[:160]}` at [{unparse(tgt.slice)}]", what_ok="state[var][:npart]", loc=fi.loc(st))
+    rep.check(rule, fi.qual, "both kinds of particle variables handled", n_time >= 1 and n_plain >= 1, what_bad=f"{n_time} time-typed path(s), {n_plain} plain path(s)", what_ok="time-typed and plain", loc=fi.loc())
 
 
 def doc_agreement(prog: Program, rep: Report) -> None:
